@@ -16,7 +16,8 @@ BUILD = os.path.join(VERIF, "build")
 CONTRACTS = os.path.join(VERIF, "contracts")
 # evidence/ is only written for runs against the real /repo; runs against a scratch copy (VERIF_REPO,
 # used for seeded changes) write to build/evidence-scratch so that committed evidence is never clobbered
-EVID = os.path.join(VERIF, "evidence") if os.path.realpath(REPO) == "/repo" else os.path.join(BUILD, "evidence-scratch")
+EVID = (os.path.join(VERIF, "evidence") if os.path.realpath(REPO) == "/repo" and os.environ.get("VERIF_EVIDENCE_SCRATCH") != "1"
+        else os.path.join(BUILD, "evidence-scratch"))
 REPLAYS = os.path.join(VERIF, "replays")
 
 VERIFICATION_FAILURE = (
@@ -534,7 +535,10 @@ def decide(pid, pcfg, cfg, tier, seed, workdir, evidence):
         raise Undecided("vacuity guard: " + vac["problem"])
     if obligations == 0 and not kani_res:
         raise Undecided("no obligations generated for this property")
-    log(f"OK property={pid} obligations={obligations} discharged={discharged} verus_wall={res['wall_s']:.1f}s")
+    note = ""
+    if ext_mine:
+        note = " BOUNDED (not proved) for " + ", ".join(x["item"] for x in ext_mine) + ": outside the verified subset in this tree, bounded stand-in passed"
+    log(f"OK property={pid} obligations={obligations} discharged={discharged} verus_wall={res['wall_s']:.1f}s" + note)
     return 0
 
 
